@@ -266,7 +266,11 @@ func runCheck(id, tier, repoDir, verifDir string, debug, claim, keep bool) int {
 			assumedContracts = append(assumedContracts, k)
 			continue
 		}
+		tv0 := time.Now()
 		r := w.verifyFunction(fn, ct, id, pc.SafeAll)
+		if debug {
+			fmt.Printf("  encode %s %.1fs\n", k, time.Since(tv0).Seconds())
+		}
 		results = append(results, r)
 	}
 	// select obligations
@@ -290,7 +294,12 @@ func runCheck(id, tier, repoDir, verifDir string, debug, claim, keep bool) int {
 			jobs = append(jobs, job{r.VC, ob})
 		}
 	}
+	td0 := time.Now()
 	w.db.dischargeAll(jobs, cfg)
+	if debug {
+		fmt.Printf("  discharge obligations %.1fs\n", time.Since(td0).Seconds())
+	}
+	td0 = time.Now()
 	// cover queries run afterwards, without the assumptions of obligations that
 	// were not discharged (a failed obligation must not make later code look vacuous)
 	var cjobs []job
@@ -309,6 +318,9 @@ func runCheck(id, tier, repoDir, verifDir string, debug, claim, keep bool) int {
 		}
 	}
 	w.db.dischargeAll(cjobs, cfg)
+	if debug {
+		fmt.Printf("  discharge covers %.1fs\n", time.Since(td0).Seconds())
+	}
 
 	// property-specific extra obligations (static / regex / schema)
 	extraObls := preObls
